@@ -172,7 +172,7 @@ def rarg_expr(akind, N, slot):
         return 'c11::to_arr<%d>(R[%d])' % (N, slot)
     if akind == 'rtv':
         return 'c11::to_vec(R[%d])' % slot
-    if akind == 'rts':
+    if akind in ('rts', 'slr'):
         return '(int)R[%d][0]' % slot
     if akind == 'cl':
         return None
@@ -319,41 +319,49 @@ def op_concatenate(k1, k2, v1, v2):
     return out
 
 
-# operations outside the Lean transfer model (correspondence + oracle only) -------------------------
+# operations whose transfer functions live in lean/NmVerif/StaticMore.lean -----------------------------
 
 def op_repeat(k, v):
     out = []
-    out.append(Node('repeat', [k], 'ct', ct=(2, 0), npf=lambda a, _: np.repeat(a[0], 2, 0), cxx=lambda e, _: 'view::repeat(%s, 2_ct, 0_ct)' % e[0]))
-    out.append(Node('repeat', [k], 'rts', rfun=lambda s: [2], npf=lambda a, x: np.repeat(a[0], x[0], 0), cxx=lambda e, x: 'view::repeat(%s, %s, 0)' % (e[0], x)))
-    out.append(Node('repeat', [k], 'rts', extra='flat', rfun=lambda s: [3], npf=lambda a, x: np.repeat(a[0], x[0], None), cxx=lambda e, x: 'view::repeat(%s, %s, nm::None)' % (e[0], x)))
+    # repeats: compile-time constant / run-time int; axis: compile-time constant / None / run-time int
+    out.append(Node('repeat', [k], 'ct', ct=(2,), extra='axc0', npf=lambda a, _: np.repeat(a[0], 2, 0), cxx=lambda e, _: 'view::repeat(%s, 2_ct, 0_ct)' % e[0]))
+    out.append(Node('repeat', [k], 'ct', ct=(3,), extra='axn', npf=lambda a, _: np.repeat(a[0], 3, None), cxx=lambda e, _: 'view::repeat(%s, 3_ct, nm::None)' % e[0]))
+    out.append(Node('repeat', [k], 'rts', extra='axr0', rfun=lambda s: [2], npf=lambda a, x: np.repeat(a[0], x[0], 0), cxx=lambda e, x: 'view::repeat(%s, %s, 0)' % (e[0], x)))
+    out.append(Node('repeat', [k], 'rts', extra='axn', rfun=lambda s: [3], npf=lambda a, x: np.repeat(a[0], x[0], None), cxx=lambda e, x: 'view::repeat(%s, %s, nm::None)' % (e[0], x)))
     return out
 
 
 def op_pad(k, v):
     r = len(v)
-    w = [1, 0] * r  # nmtools order: before_0.., after_0..  -> use symmetric description below
     before = [1] + [0] * (r - 1); after = [0] * (r - 1) + [2]
-    flat = before + after
+    flat = before + after        # nmtools order: before_0.., after_0..
     npw = list(zip(before, after))
     out = [Node('pad', [k], 'rt', N=2 * r, rfun=lambda s, r=r, flat=flat: flat if len(s[0]) == r else None,
                 npf=lambda a, x, r=r: np.pad(a[0], list(zip(x[:r], x[r:]))), cxx=lambda e, x: 'view::pad(%s, %s)' % (e[0], x))]
     out.append(Node('pad', [k], 'ct', ct=tuple(flat), npf=lambda a, _, npw=npw: np.pad(a[0], npw),
                     cxx=lambda e, _, flat=flat: 'view::pad(%s, %s)' % (e[0], ct_tuple(flat))))
+    mx = [x + 1 for x in flat]
+    out.append(Node('pad', [k], 'cl', ct=tuple(mx), N=len(flat), npf=lambda a, _, npw=npw: np.pad(a[0], npw),
+                    cxx=lambda e, _, flat=flat, mx=mx: 'view::pad(%s, %s)' % (e[0], cl_tuple(flat, mx)), clv=tuple(flat)))
+    out.append(Node('pad', [k], 'rtv', rfun=lambda s: [1] + [0] * (len(s[0]) - 1) + [0] * (len(s[0]) - 1) + [2],
+                    npf=lambda a, x: np.pad(a[0], list(zip(x[:len(x) // 2], x[len(x) // 2:]))), cxx=lambda e, x: 'view::pad(%s, %s)' % (e[0], x)))
     return out
 
 
 def op_cumsum(k, v):
     return [Node('cumsum', [k], 'rts', rfun=lambda s: [0], npf=lambda a, x: np.cumsum(a[0], x[0]), cxx=lambda e, x: 'view::cumsum(%s, %s)' % (e[0], x)),
-            Node('cumsum', [k], 'ct', ct=0, npf=lambda a, _: np.cumsum(a[0], 0), cxx=lambda e, _: 'view::cumsum(%s, 0_ct)' % e[0])]
+            Node('cumsum', [k], 'cts', ct=0, npf=lambda a, _: np.cumsum(a[0], 0), cxx=lambda e, _: 'view::cumsum(%s, 0_ct)' % e[0])]
 
 
 def op_roll(k, v):
-    return [Node('roll', [k], 'rts', rfun=lambda s: [1], npf=lambda a, x: np.roll(a[0], x[0]), cxx=lambda e, x: 'view::roll(%s, %s)' % (e[0], x)),
-            Node('roll', [k], 'ct', ct=(1, 0), npf=lambda a, _: np.roll(a[0], 1, 0), cxx=lambda e, _: 'view::roll(%s, 1_ct, 0_ct)' % e[0])]
+    return [Node('roll', [k], 'rts', extra='axn', rfun=lambda s: [1], npf=lambda a, x: np.roll(a[0], x[0]), cxx=lambda e, x: 'view::roll(%s, %s)' % (e[0], x)),
+            Node('roll', [k], 'rts', extra='axr0', rfun=lambda s: [1], npf=lambda a, x: np.roll(a[0], x[0], 0), cxx=lambda e, x: 'view::roll(%s, %s, 0)' % (e[0], x)),
+            Node('roll', [k], 'ct', ct=(1,), extra='axc0', npf=lambda a, _: np.roll(a[0], 1, 0), cxx=lambda e, _: 'view::roll(%s, 1_ct, 0_ct)' % e[0])]
 
 
 def op_flip(k, v):
     return [Node('flip', [k], 'none', npf=lambda a, _: np.flip(a[0]), cxx=lambda e, _: 'view::flip(%s, nm::None)' % e[0]),
+            Node('flip', [k], 'cts', ct=0, npf=lambda a, _: np.flip(a[0], 0), cxx=lambda e, _: 'view::flip(%s, 0_ct)' % e[0]),
             Node('flip', [k], 'rts', rfun=lambda s: [0], npf=lambda a, x: np.flip(a[0], x[0]), cxx=lambda e, x: 'view::flip(%s, %s)' % (e[0], x))]
 
 
@@ -366,18 +374,22 @@ def op_moveaxis(k, v):
 
 
 def op_take(k, v):
-    return [Node('take', [k], 'rt', N=3, rfun=lambda s: [0, s[0][0] - 1, 0], npf=lambda a, x: np.take(a[0], x, 0),
+    return [Node('take', [k], 'rt', N=3, extra='axr0', rfun=lambda s: [0, s[0][0] - 1, 0], npf=lambda a, x: np.take(a[0], x, 0),
                  cxx=lambda e, x: 'view::take(%s, %s, 0)' % (e[0], x)),
-            Node('take', [k], 'rtv', rfun=lambda s: [s[0][0] - 1, 0], npf=lambda a, x: np.take(a[0], x, 0),
-                 cxx=lambda e, x: 'view::take(%s, %s, 0)' % (e[0], x))]
+            Node('take', [k], 'rtv', extra='axr0', rfun=lambda s: [s[0][0] - 1, 0], npf=lambda a, x: np.take(a[0], x, 0),
+                 cxx=lambda e, x: 'view::take(%s, %s, 0)' % (e[0], x)),
+            Node('take', [k], 'ct', ct=(0, 0, 0), extra='axc0', npf=lambda a, _: np.take(a[0], [0, 0, 0], 0),
+                 cxx=lambda e, _: 'view::take(%s, %s, 0_ct)' % (e[0], ct_tuple((0, 0, 0))))]
 
 
 def op_slice(k, v):
     r = len(v)
     if r < 2:
         return []
-    return [Node('slice', [k], 'ct', ct=0, npf=lambda a, _: a[0][..., 0:1], cxx=lambda e, _: 'view::slice(%s, nm::Ellipsis, nmtools_tuple{0,1})' % e[0]),
-            Node('slice', [k], 'rts', rfun=lambda s: [1] if len(s[0]) >= 2 else None, npf=lambda a, x: a[0][0:x[0]], cxx=lambda e, x: 'view::slice(%s, nmtools_tuple{0,%s}, nm::Ellipsis)' % (e[0], x))]
+    # token fields: the slice entries, `e` = Ellipsis, `r<a>_<b>` = a:b (run-time ints in a tuple), `i<k>` = integer index
+    return [Node('slice', [k], 'sl', extra='e.r0_1', npf=lambda a, _: a[0][..., 0:1], cxx=lambda e, _: 'view::slice(%s, nm::Ellipsis, nmtools_tuple{0,1})' % e[0]),
+            Node('slice', [k], 'slr', rfun=lambda s: [1] if len(s[0]) >= 2 else None, npf=lambda a, x: a[0][0:x[0]], cxx=lambda e, x: 'view::slice(%s, nmtools_tuple{0,%s}, nm::Ellipsis)' % (e[0], x)),
+            Node('slice', [k], 'sl', extra='i0.e', npf=lambda a, _: a[0][0, ...], cxx=lambda e, _: 'view::slice(%s, 0, nm::Ellipsis)' % e[0])]
 
 
 def op_atleast_3d(k, v):
@@ -406,9 +418,11 @@ def op_multiply_scalar(k, v):
 
 MODELLED_UNARY = [op_transpose, op_reshape, op_flatten, op_broadcast_to, op_tile, op_expand_dims, op_squeeze, op_sum, op_negative]
 MODELLED_BINARY = [op_add, op_concatenate]
+# second group (transfer functions in StaticMore.lean); generated for fewer leaf kinds in the quick tier (compile time)
 EXTRA_UNARY = [op_repeat, op_pad, op_cumsum, op_roll, op_flip, op_moveaxis, op_take, op_slice, op_atleast_3d, op_multiply_scalar]
 EXTRA_BINARY = [op_where, op_matmul]
-MODELLED = {'transpose', 'reshape', 'flatten', 'broadcast_to', 'tile', 'expand_dims', 'squeeze', 'sum', 'negative', 'add', 'concatenate'}
+MODELLED = {'transpose', 'reshape', 'flatten', 'broadcast_to', 'tile', 'expand_dims', 'squeeze', 'sum', 'negative', 'add', 'concatenate',
+            'repeat', 'pad', 'cumsum', 'roll', 'flip', 'moveaxis', 'take', 'slice', 'atleast_3d', 'mulscalar', 'where', 'matmul'}
 
 HEADERS = ['transpose', 'reshape', 'flatten', 'broadcast_to', 'tile', 'expand_dims', 'squeeze', 'sum', 'ufuncs/negative', 'ufuncs/add',
            'concatenate', 'repeat', 'pad', 'cumsum', 'roll', 'flip', 'moveaxis', 'take', 'slice', 'atleast_nd', 'ufuncs/multiply',
@@ -474,7 +488,11 @@ class Program:
                     raise ValueError('instance not applicable')
                 x = [int(t) for t in x]
                 rargs.append(x)
-            return np.asarray(n.npf(arrs, x))
+            res = np.asarray(n.npf(arrs, x))
+            if res.ndim == 0:
+                # domain of the generator: every intermediate view has rank >= 1 (a run-time squeeze of an all-ones instance ends here)
+                raise ValueError('rank-0 intermediate')
+            return res
         r = rec(self.root)
         return r, rargs
 
@@ -559,7 +577,7 @@ def build_programs(tier):
     # depth 1, unary: every op variant x every leaf kind
     for kind in kinds:
         leaf = lambda P, kind=kind: Leaf(kind, P)
-        extra = EXTRA_UNARY if kind in (('cs', 'cl', 'fd', 'dy') if tier == 'quick' else ('cs', 'fx', 'cl', 'cla', 'fd', 'fdf', 'bd', 'dy')) else []
+        extra = EXTRA_UNARY if kind in (('cs', 'cl', 'fd', 'bd', 'dy') if tier == 'quick' else LEAF_KINDS) else []
         for n in unary_variants(MODELLED_UNARY + extra, leaf((2, 3))):
             if n.name == 'squeeze':
                 continue
@@ -589,6 +607,12 @@ def build_programs(tier):
                     add(n)
                 for n in binary_variants([op_matmul], Leaf(k1, (2, 3)), Leaf(k2, (3, 2))):
                     add(n)
+    # where(c, c, y) with a one-element condition: the class of the known finding C11.where-tripled-fixed-size (fdf partner)
+    # and its sound neighbours (bounded / constant-shape / dynamic partner)
+    for k1, P1 in (('fdf', (1, 1)), ('cs', (1, 1)), ('cs', (1,))):
+        for k2 in ('fdf', 'fdh', 'cs', 'dy'):
+            for n in binary_variants([op_where], Leaf(k1, P1), Leaf(k2, (2, 3))):
+                add(n)
     # depth 2 and 3: sampled compositions
     n2, n3 = (110, 25) if tier == 'quick' else (450, 220)
     una = MODELLED_UNARY + EXTRA_UNARY
